@@ -186,7 +186,9 @@ def truth(sc):
     else:
         ts = day_starts(sc, extra=1)
         n = sc["span"]
-        if fam == "billing":
+        if fam == "billing" and sc.get("meter_source"):
+            us = billing_rows_usage(sc)
+        elif fam == "billing":
             us = billing_daily_usage(sc)
         else:
             us = usage_cells(sc, n)
@@ -199,7 +201,7 @@ def truth(sc):
                   for i in range(n + 1)]
         cells = []
         meter = has_meter(sc)
-        trim = fam == "daily" and sc["entry"] == "from_series"
+        trim = (fam == "daily" or bool(sc.get("meter_source"))) and sc["entry"] == "from_series"
         # from_series "trims the data to exclude NaNs on the outer edges": leading / trailing readings without a value
         # are not data - the meter series is cut to its first..last value, the temperature series to its first..last
         # value, and each is then cut to the range of the other (a day of the meter series reaches one period back)
@@ -306,7 +308,33 @@ def billing_kind(sc):
     return "monthly" if med2 <= 70 else "bimonthly"
 
 
+def billing_rows_usage(sc):
+    """daily (or hourly) meter rows handed to a billing class are summed per calendar month (a month without any
+    value has none) and the month's total is spread over its days by elapsed time. -> usage per day | None"""
+    n = sc["span"]
+    ts = day_starts(sc, extra=1)
+    raw = usage_cells(sc, n)
+    d0 = start_date(sc)
+    key = [((d0 + dt.timedelta(days=i)).year, (d0 + dt.timedelta(days=i)).month) for i in range(n)]
+    out = [None] * n
+    i = 0
+    while i < n:
+        j = i
+        while j < n and key[j] == key[i]:
+            j += 1
+        vals = [Fraction(raw[d]) * ((ts[d + 1] - ts[d]) // 3600 if sc["meter_source"] == "hourly" else 24) / 24
+                for d in range(i, j) if raw[d] is not None]
+        if vals:
+            tot = sum(vals)
+            for d in range(i, j):
+                out[d] = tot * (ts[d + 1] - ts[d]) / (ts[j] - ts[i])
+        i = j
+    return out
+
+
 def billing_offcycle(sc):
+    if sc.get("meter_source"):
+        return []                     # calendar months are never off-cycle
     hi = 35 if billing_kind(sc) == "monthly" else 70
     return [(i, ln) for i, ln, v in billing_effective(sc) if ln < 25 or ln > hi]
 
@@ -493,8 +521,17 @@ def build_input(sc):
     days = day_starts(sc, extra=1)
     no_meter = sc["period"] == "reporting" and not sc.get("observed_column", True)
     # billing from_series: the temperature must reach the closing stamp of the last period
-    closing = fam == "billing" and sc["entry"] == "from_series" and not no_meter
-    if fam == "billing":
+    closing = fam == "billing" and sc["entry"] == "from_series" and not no_meter and not sc.get("meter_source")
+    if fam == "billing" and sc.get("meter_source") == "hourly":
+        us = usage_cells(sc, n)
+        hs = hour_starts(sc)
+        vals, j = [], 0
+        for i in range(n):
+            while j < len(hs) and hs[j] < days[i + 1]:
+                vals.append(nan if us[i] is None else us[i] / 24.0)
+                j += 1
+        meter = pd.Series(vals, index=_index(hs, tz_object(sc)), name="observed")
+    elif fam == "billing" and not sc.get("meter_source"):
         stamps, vals = [], []
         for i, ln, v in billing_periods(sc):
             stamps.append(days[i])
